@@ -144,9 +144,84 @@ def gen_helper_table():
     return rows, inline
 
 
+# ---------------------------------------------------------------------------------------------
+# io.py: alias functions -> (parameters, target, forwarded keywords)
+
+
+def io_aliases():
+    tree = ast.parse(src("dataiter/io.py"))
+    rows = []
+    for fn in tree.body:
+        if not isinstance(fn, ast.FunctionDef):
+            continue
+        pos = [a.arg for a in fn.args.args]
+        kwonly = [a.arg for a in fn.args.kwonlyargs]
+        defaults = {a.arg: ast.unparse(d) for a, d in zip(fn.args.kwonlyargs, fn.args.kw_defaults) if d is not None}
+        varkw = fn.args.kwarg.arg if fn.args.kwarg else None
+        call = None
+        for n in ast.walk(fn):
+            if isinstance(n, ast.Return) and isinstance(n.value, ast.Call):
+                call = n.value
+        if call is None:
+            continue
+        target = ast.unparse(call.func)
+        passed_pos = [ast.unparse(a) for a in call.args]
+        passed_kw = [(k.arg, ast.unparse(k.value)) for k in call.keywords if k.arg is not None]
+        star = [ast.unparse(k.value) for k in call.keywords if k.arg is None]
+        rows.append({"name": fn.name, "pos": pos, "kwonly": kwonly, "defaults": defaults, "varkw": varkw,
+                     "target": target, "passed_pos": passed_pos, "passed_kw": passed_kw, "star": star})
+    # the targets' own keyword-only parameters and defaults
+    targets = {}
+    for path, cls in (("dataiter/data_frame.py", "DataFrame"), ("dataiter/list_of_dicts.py", "ListOfDicts"), ("dataiter/geojson.py", "GeoJSON")):
+        t = ast.parse(src(path))
+        for c in t.body:
+            if isinstance(c, ast.ClassDef) and c.name == cls:
+                for f in c.body:
+                    if isinstance(f, ast.FunctionDef):
+                        targets[f"{cls}.{f.name}"] = {
+                            "kwonly": [a.arg for a in f.args.kwonlyargs],
+                            "defaults": {a.arg: ast.unparse(d) for a, d in zip(f.args.kwonlyargs, f.args.kw_defaults) if d is not None},
+                            "varkw": f.args.kwarg.arg if f.args.kwarg else None}
+    return rows, targets
+
+
+def gen_io_aliases():
+    rows, targets = io_aliases()
+
+    def ll(xs):
+        return "[" + ", ".join(lean_str(x) for x in xs) + "]"
+
+    def lp(ps):
+        return "[" + ", ".join(f"({lean_str(a)}, {lean_str(b)})" for a, b in ps) + "]"
+    out = ["/- GENERATED by harness/extract_ast.py from dataiter/io.py and the reader signatures — do not edit. -/",
+           "namespace DI.Gen", "",
+           "structure Alias where",
+           "  name : String", "  posParams : List String", "  kwParams : List String", "  defaults : List (String × String)",
+           "  varkw : Option String", "  target : String", "  passedPos : List String", "  passedKw : List (String × String)",
+           "  star : List String", "  targetKw : List String", "  targetDefaults : List (String × String)", "  targetVarkw : Bool",
+           "  deriving Repr, DecidableEq", "",
+           "def ioAliases : List Alias := ["]
+    items = []
+    for r in rows:
+        t = targets.get(r["target"], {"kwonly": [], "defaults": {}, "varkw": None})
+        vk = f"some {lean_str(r['varkw'])}" if r["varkw"] else "none"
+        items.append("  { name := %s, posParams := %s, kwParams := %s, defaults := %s, varkw := %s, target := %s,\n"
+                     "    passedPos := %s, passedKw := %s, star := %s, targetKw := %s, targetDefaults := %s, targetVarkw := %s }" % (
+                         lean_str(r["name"]), ll(r["pos"]), ll(r["kwonly"]), lp(sorted(r["defaults"].items())), vk, lean_str(r["target"]),
+                         ll(r["passed_pos"]), lp(r["passed_kw"]), ll(r["star"]), ll(t["kwonly"]), lp(sorted(t["defaults"].items())),
+                         "true" if t["varkw"] else "false"))
+    out.append(",\n".join(items))
+    out.append("]")
+    out.append("")
+    out.append("end DI.Gen")
+    write_if_changed(os.path.join(GEN, "IoAliases.lean"), "\n".join(out) + "\n")
+    return rows
+
+
 def main():
     os.makedirs(GEN, exist_ok=True)
     gen_helper_table()
+    gen_io_aliases()
 
 
 if __name__ == "__main__":
